@@ -1,5 +1,5 @@
 """C04 - each computation runs at most once, and only on demand."""
-from ..store_check import run_families
+from ..store_check import run_families, validate_recorded
 
 RELEVANT = {'runs', 'error'}
 
@@ -71,13 +71,4 @@ def run(ctx):
     for p in ps:
         p['opts'] = dict(p.get('opts') or {}, record=True)   # the replays are recorded too and validated below
     run_families(ctx, ps, RELEVANT)
-    from .. import trace_check
-    rec = ctx.extra.pop('_recorded', [])
-    if rec:
-        traces = [{'test': f'replayed behaviour #{i}', 'events': ev} for i, ev in enumerate(rec)]
-        if ctx.quick():
-            traces = traces[:1500]
-        n, rejected = trace_check.validate(ctx, traces, label='replayed StoreAtomic behaviours (random drivers)')
-        ctx.extra['replay_traces_validated'] = n
-        for test, k, ev, before, tasks in rejected[:20]:
-            ctx.report(f'replay-trace:{ev[0]}', f'{test}: event #{k} {ev} is not a behaviour of StoreTrace; preceding {before}')
+    validate_recorded(ctx, cap=1500 if ctx.quick() else None)
